@@ -64,7 +64,7 @@ def main():
     args = [a for a in sys.argv[1:] if not a.startswith("-")]
     rx = re.compile(args[0]) if args else None
     ms = [m for m in MUTANTS if rx is None or rx.search(m["id"])]
-    jobs = 4
+    jobs = int(os.environ.get("SELFTEST_JOBS", "4"))
     bad = 0
     with ThreadPoolExecutor(max_workers=jobs) as ex:
         for (mid, status, info) in ex.map(run_one, ms):
